@@ -60,6 +60,14 @@ fn main() {
             let ctx = Ctx { id: id.clone(), tier, seed, threads, scale };
             std::process::exit(wpv::driver::run_check(&ctx, replay.as_deref(), only.as_deref()));
         }
+        "fuzz-decode" => {
+            // wpv fuzz-decode swapstep <file>: the structured case a fuzz input stands for
+            let data = std::fs::read(args.get(3).unwrap_or_else(|| usage())).expect("read input");
+            match args.get(2).map(|s| s.as_str()) {
+                Some("swapstep") => println!("{}", serde_json::to_string_pretty(&wpv::fuzz::decode_swapstep(&data)).unwrap()),
+                _ => usage(),
+            }
+        }
         _ => usage(),
     }
     let _ = (Instant::now(), Value::Null);
